@@ -1,0 +1,10 @@
+//go:build !verif
+// +build !verif
+
+package spg
+
+// No-op counterparts of the hooks in verif_export.go (build tag "verif").
+
+func verifObserveDraw(n uint32) {}
+
+func verifCanonicalAlphabet(chars charList) {}
